@@ -207,7 +207,7 @@ func checkWriteC02(w *mon.W, ch p9p.Channel, conn *wire.Script, fc *p9p.Fcall, r
 	cancel()
 	got := conn.Written()
 
-	if w.WantSample() && w.Rng.Intn(400) == 0 {
+	if w.SampleDue(311) {
 		w.Sample(map[string]interface{}{"message": refcodec.Describe(fc), "frame_len": L, "msize": M, "path": path, "emitted_bytes": len(got), "err": fmt.Sprint(err)})
 	}
 
